@@ -16,6 +16,9 @@ import Restful.Lemmas.JsrSlash
 import Restful.Spec.Params
 import Restful.Lemmas.StateShape
 import Restful.Lemmas.RouteUnique
+import Restful.Lemmas.TieImpParams
+import Restful.Lemmas.TieImpUntok
+import Restful.Lemmas.TieImpPath
 namespace Restful
 namespace Props
 variable (E : ReEnv)
@@ -362,3 +365,9 @@ theorem C04_ids_witness :
 
 end Props
 end Restful
+
+-- the imperative functions this property's model rests on, tied to their statement-by-statement
+-- translation (tools/goimp, Gen/Imp.lean, regenerated on every run):
+-- also: Restful.TieImp.T4.extract_parameters
+-- also: Restful.TieImp.T2.untokenize_path
+-- also: Restful.TieImp.T2.tokenize_path
